@@ -73,6 +73,77 @@ def _check_log(ctx, log, label):
     ctx.note(f"{label}: {len(log)} kernel calls, {len(seen)} distinct bindings, {nq} alias queries")
 
 
+def _check_frames(ctx, frames, log, label):
+    """wrapper level: within ONE call of a public kernel (the callable a gen_* function returns), memory that the caller
+    passed under two different argument names must not be written by one compiled kernel and read by a later one (the
+    in-place elementwise pattern - same kernel, same cell - is the intra-kernel query above and is allowed)."""
+    from symsopht.iranalysis import IRInfo
+
+    nq = 0
+    seen = set()
+    for fr in frames:
+        names = sorted(fr["params"])
+        pairs = [(p, q) for i, p in enumerate(names) for q in names[i + 1:] if fr["params"][p][0] == fr["params"][q][0]]
+        inner = log[fr["first"]:fr["last"]]
+        if not pairs or len(inner) < 2:
+            continue
+        key = (fr["name"], tuple((n, fr["params"][n][1:]) for n in names), tuple(id(c["handle"]) for c in inner))
+        if key in seen:
+            continue
+        seen.add(key)
+        infos = []
+        for c in inner:
+            ir = IRInfo(c["handle"])
+            subst = [(ir.zint(n), z3.IntVal(int(c["fields"][f][3][d]))) for n, (f, d) in ir.size_sym.items()]
+            infos.append((ir, subst))
+
+        def member(A, ext, tag):
+            _, off, strides, shape = ext
+            ks = [z3.Int(f"{tag}_{d}") for d in range(len(shape))]
+            return [A == int(off) + sum(k * int(st) for k, st in zip(ks, strides))] + [z3.And(k >= 0, k < int(n)) for k, n in zip(ks, shape)]
+
+        for p, q in pairs:
+            for i, ci in enumerate(inner):
+                iri, si = infos[i]
+                subi, boxi = iri.box("_w")
+                boxi = z3.substitute(boxi, *si) if si else boxi
+                for (fw, is_w, iw) in iri.accesses:
+                    if not is_w or ci["fields"][fw][0] != fr["params"][p][0]:
+                        continue
+                    for j in range(i + 1, len(inner)):
+                        cj = inner[j]
+                        irj, sj = infos[j]
+                        subj, boxj = irj.box("_r")
+                        boxj = z3.substitute(boxj, *sj) if sj else boxj
+                        for (fx, xw, ix) in irj.accesses:
+                            if xw or cj["fields"][fx][0] != fr["params"][p][0]:
+                                continue
+                            A = z3.Int("addr")
+
+                            def addr(call, ir_, fname, idx, suffix):
+                                _, off, strides, _ = call["fields"][fname]
+                                ren = [(a, b) for (a, _), (_, b) in zip(ir_.box()[0], ir_.box(suffix)[0])]
+                                e = z3.IntVal(int(off))
+                                for d, ie in idx.items():
+                                    e = e + z3.substitute(ie, *ren) * int(strides[d])
+                                return e
+
+                            s = z3.Solver()
+                            s.set("timeout", 20000)
+                            s.add(boxi, boxj, A == addr(ci, iri, fw, iw, "_w"), A == addr(cj, irj, fx, ix, "_r"))
+                            s.add(*member(A, fr["params"][p], "kp"), *member(A, fr["params"][q], "kq"))
+                            t0 = time.time()
+                            r = str(s.check())
+                            dt = time.time() - t0
+                            smt.STATS.record("public_call_alias", r, dt, 0)
+                            nq += 1
+                            name = f"public:{label}:{fr['name']}:{p}~{q}:{ci['handle'].name}.{fw}->{cj['handle'].name}.{fx}"
+                            ctx.claims.append(Claim(name, r, {}, time_=dt))
+                            if r != "unsat":
+                                ctx.nfail += 1
+    ctx.note(f"{label}: {len(frames)} public kernel calls, {len(seen)} with arguments sharing a buffer, {nq} wrapper-level alias queries")
+
+
 @scenario
 def flow_step_call_sites(ctx, cfg):
     from symsopht import load
@@ -82,12 +153,16 @@ def flow_step_call_sites(ctx, cfg):
         return _replay(ctx, cfg)
     load.CALL_LOG.clear()
     load.HAZARDS.clear()
+    load.PUBLIC_FRAMES.clear()
+    load.patch_public_generators()
     load.LOG_CALLS[0] = True
     try:
         run_step(ctx, cfg, cuts=False, trivial_fft=True)
     finally:
         load.LOG_CALLS[0] = False
+        load.unpatch_public_generators()
     _check_log(ctx, list(load.CALL_LOG), "step")
+    _check_frames(ctx, list(load.PUBLIC_FRAMES), list(load.CALL_LOG), "step")
     ctx.claim("interpreter_saw_no_cross_cell_hazard", len(load.HAZARDS) == 0)
 
 
@@ -98,6 +173,25 @@ def _replay(ctx, cfg):
     from checks.flowstep import run_step
     from checks.common import Ctx
 
+    sopht_modules()
+    if (ctx.target or "").startswith("public:"):
+        # wrapper-level hazard: run the real compiled step; every public kernel whose arguments share memory is also run
+        # on de-aliased copies and the outputs are compared
+        import random
+
+        rnd = random.Random(0)
+        ctx._num = lambda name, default: rnd.uniform(0.1, 1.0)  # the hazard does not depend on the data: generic values
+        load.DEALIAS_FINDINGS.clear()
+        load.patch_public_generators()
+        load.DEALIAS_COMPARE[0] = True
+        try:
+            run_step(ctx, cfg, cuts=False)
+        finally:
+            load.DEALIAS_COMPARE[0] = False
+            load.unpatch_public_generators()
+        f = load.DEALIAS_FINDINGS
+        ctx.replay_result = (bool(f), f[0] if f else "every public kernel call with arguments sharing memory equals its de-aliased twin")
+        return
     res = []
     for rev in (False, True):
         c2 = Ctx("sym", seed=1)
@@ -132,6 +226,8 @@ def kernel_wrappers_call_sites(ctx, which):
     _, spne, sps, _ = sopht_modules()
     load.CALL_LOG.clear()
     load.HAZARDS.clear()
+    load.PUBLIC_FRAMES.clear()
+    load.patch_public_generators()
     load.LOG_CALLS[0] = True
     try:
         if which == "filter":
@@ -166,7 +262,9 @@ def kernel_wrappers_call_sites(ctx, which):
                 inter()
     finally:
         load.LOG_CALLS[0] = False
+        load.unpatch_public_generators()
     _check_log(ctx, list(load.CALL_LOG), which)
+    _check_frames(ctx, list(load.PUBLIC_FRAMES), list(load.CALL_LOG), which)
     ctx.claim("interpreter_saw_no_cross_cell_hazard", len(load.HAZARDS) == 0)
 
 
